@@ -145,6 +145,8 @@ func runCaseFull(c *Case) (tr Trace) {
 			}
 			if op.Export {
 				po = append(po, dig.Export(true))
+			} else if f.ID%2 == 0 {
+				po = append(po, dig.Export(false)) // the explicit form of the default
 			}
 			if f.Callback {
 				po = append(po, dig.WithProviderCallback(r.cb(f)))
